@@ -210,6 +210,15 @@ def _operator_binary(string: str) -> tuple[int, str]:
         raise ValueError('Invalid expression (too short) {}'.format(string)) from None
 
 
+def _flow_value(klass: Type[FlowConditionT], string: str) -> int:
+    """Convert the text of a component value and check that the component can carry it."""
+    number = klass.converter(string)
+    limit = 1 << (8 * max(klass.VALUE_SIZES))
+    if number < 0 or number >= limit:
+        raise ValueError(f"'{string}' is not a valid {klass.NAME} value\n  Must be 0 to {limit - 1}")
+    return number
+
+
 def _value(string: str) -> tuple[str, str]:
     ls: int = 0
     for c in string:
@@ -245,7 +254,7 @@ def _generic_condition(tokeniser: 'Tokeniser', klass: Type[FlowConditionT]) -> G
             operator, _ = _operator(data)
             value: str
             value, data = _value(_)
-            yield klass(AND | operator, klass.converter(value))
+            yield klass(AND | operator, _flow_value(klass, value))
             if data:
                 if data[0] != '&':
                     raise ValueError('Unknown binary operator {}'.format(data[0]))
@@ -260,7 +269,7 @@ def _generic_condition(tokeniser: 'Tokeniser', klass: Type[FlowConditionT]) -> G
         while data:
             operator, _ = _operator(data)
             value, data = _value(_)
-            yield klass(operator | AND, klass.converter(value))
+            yield klass(operator | AND, _flow_value(klass, value))
             if data:
                 if data[0] != '&':
                     raise ValueError('Unknown binary operator {}'.format(data[0]))
@@ -345,6 +354,8 @@ def discard(tokeniser: 'Tokeniser') -> ExtendedCommunities:
 def rate_limit(tokeniser: 'Tokeniser') -> ExtendedCommunities:
     # README: We are setting the ASN as zero as that what Juniper (and Arbor) did when we created a local flow route
     speed: int = int(tokeniser())
+    if speed < 0:
+        raise ValueError(f'rate-limit {speed} is invalid\n  Must be a positive number of bytes or packets per second')
     unit = tokeniser.peek()
     if unit in ('bytes', 'packets'):
         tokeniser()
@@ -402,7 +413,7 @@ def redirect(tokeniser: 'Tokeniser') -> tuple[IP, ExtendedCommunities]:
         ip_str, nn = data.split(']:')
         ip_str = ip_str.replace('[', '', 1)
 
-        if int(nn) >= pow(2, LOCAL_ADMIN_16_BITS):
+        if int(nn) < 0 or int(nn) >= pow(2, LOCAL_ADMIN_16_BITS):
             raise ValueError('Local administrator field is a 16 bits number, value too large {}'.format(nn))
         return IP.from_string(ip_str), ExtendedCommunities().add(
             TrafficRedirectIPv6.make_traffic_redirect_ipv6(ip_str, int(nn))
@@ -421,6 +432,9 @@ def redirect(tokeniser: 'Tokeniser') -> tuple[IP, ExtendedCommunities]:
 
         asn: int = int(prefix)
         nn_int: int = int(suffix)
+
+        if nn_int < 0:
+            raise ValueError(f'Local administrator field can not be negative: {nn_int}')
 
         if not ASN4.validate(asn):
             raise ValueError(f'asn is invalid, must be 0 to {ASN.MAX_4BYTE} (32 bits): {asn}')
